@@ -212,6 +212,17 @@ func runWatchLoop(
 		}
 		evaluated = candidate
 		verifhook.Event("rw.callback", "path", configPath, "fp", candidate)
+		// The callback reads the file on its own. If the file no longer carries the evaluated
+		// fingerprint once it returns, what it read is unknown: forget the evaluation and
+		// debounce again, so that the content that stays is evaluated for certain.
+		defer func() {
+			if current := fingerprint(configPath); current != candidate {
+				verifhook.Event("rw.reconcile", "path", configPath, "fp", current, "changed", true)
+				evaluated = contentFingerprint{}
+				observed = current
+				schedule()
+			}
+		}()
 		start := time.Now()
 		if err := cb(); err != nil {
 			code := "read_failed"
